@@ -84,7 +84,7 @@ struct Model {
 
     explicit Model(std::vector<Node>* n) : nodes(n), st(n->size()), ex(n->size()), inner(n->size()), comb(n->size()) { }
 
-    int node_value(int k, int x) const { return x + 7 * (k + 1); }
+    int node_value(int k, int x) const { return static_cast<int>((static_cast<unsigned>(x) + 7u * static_cast<unsigned>(k + 1)) & 0x3fffffffu); }
 
     void settle(int k, MState::S s, int v, int e)
     {
@@ -168,9 +168,9 @@ struct Model {
                 e.f = 1;
                 e.tuple = cb.vals;
                 e.tuple_known = true;
-                int sum = 0;
-                for (int v : cb.vals) sum = sum * 31 + v;
-                settle(c, MState::Fulfilled, sum, 0);
+                unsigned sum = 0;
+                for (int v : cb.vals) sum = sum * 31u + static_cast<unsigned>(v);
+                settle(c, MState::Fulfilled, static_cast<int>(sum & 0x3fffffffu), 0);
             }
         }
     }
@@ -291,7 +291,7 @@ struct Exec {
     std::vector<Done> log;
     std::vector<std::unique_ptr<std::vector<PInt>>> ranges; // keeps whenAll(range) inputs alive
 
-    int node_value(int k, int x) const { return x + 7 * (k + 1); }
+    int node_value(int k, int x) const { return static_cast<int>((static_cast<unsigned>(x) + 7u * static_cast<unsigned>(k + 1)) & 0x3fffffffu); }
 
     template <typename F>
     static PInt then_with(PInt& parent, RKind rk, Obs& o, F f)
@@ -338,7 +338,7 @@ struct Exec {
         std::vector<PInt*> in;
         for (int i : n.inputs) in.push_back(prom[static_cast<size_t>(i)].get());
         auto rec_r = [&o](std::exception_ptr e) { o.r_count++; o.r_exc = exc_tag(e); };
-        auto sum_of = [](const std::vector<int>& v) { int s = 0; for (int x : v) s = s * 31 + x; return s; };
+        auto sum_of = [](const std::vector<int>& v) { unsigned s = 0; for (int x : v) s = s * 31u + static_cast<unsigned>(x); return static_cast<int>(s & 0x3fffffffu); };
         if (n.kind == NAny) {
             auto fin = [&](Async::Promise<Async::Any> R) {
                 R.then([&o](const Async::Any& a) { o.f_count++; o.tuple = { a.cast<int>() }; }, rec_r);
